@@ -273,6 +273,12 @@ func FuzzC08(f *testing.F) {
 	}
 	f.Add(esl.Encode([]esl.List{{Type: esl.SHA256, Size: 48, Entries: []esl.Entry{{Data: make([]byte, 32)}}}, {Type: esl.X509, Size: 20, Entries: []esl.Entry{{Data: []byte{1, 2, 3, 4}}}}, {Type: esl.ExtMgm, Size: 17}}))
 	f.Add([]byte{})
+	for i := 0; i < 300; i++ {
+		c := rapid.Custom(genCase).Example(i)
+		if in := apply(c.Stream, c.Muts); len(in) <= 1<<16 {
+			f.Add(in)
+		}
+	}
 	f.Fuzz(hx.FuzzBody("C08", "FuzzC08", func(in []byte) error {
 		if len(in) > 1<<16 {
 			return nil
